@@ -438,6 +438,53 @@ theorem broadcast_one_result_each (P : Policy) (lf : LoopForm) (ff : FilterForm)
 
 example : (([⟨"n1", ["a"], []⟩, ⟨"n2", [], []⟩] : List Node).map (·.name)).Nodup := by decide
 
+/-- The hypotheses the theorems above carry hold for every fleet that can exist: both constructors
+validate the options (`max_attempts ≥ 1`, the hypothesis of `reports_reply_or_last_transport_error`)
+and refuse a second node of the same name, and so does `add_node` (the hypothesis of
+`broadcast_one_result_each`). Facts re-extracted from the source. -/
+theorem constructors_enforce_hypotheses :
+    Gen.Fleet.maxAttemptsValidated = true ∧ Gen.Fleet.asyncMaxAttemptsValidated = true ∧
+    Gen.Fleet.namesDistinctAtConstruction = true ∧ Gen.Fleet.asyncNamesDistinctAtConstruction = true ∧
+    Gen.Fleet.namesDistinctAtAdd = true ∧ Gen.Fleet.asyncNamesDistinctAtAdd = true := by decide
+
+/-- Tags are opaque: what a broadcast addresses depends only on which tags are equal, not on what they
+are (empty, blank, non-ASCII, long, differing in case only …). Renaming every tag through an injective
+map — in the request and on the nodes — addresses the same nodes. (The harness maps the tags of a case
+to such strings; node names do not enter `targets` at all.) -/
+theorem tags_opaque (f : String → String) (hf : Function.Injective f) (req : List String) (n : Node) :
+    matchesTags Gen.Fleet.filter (req.map f) ⟨n.name, n.tags.map f, n.behaviours⟩ =
+      matchesTags Gen.Fleet.filter req n ∧
+    matchesTags Gen.Fleet.asyncFilter (req.map f) ⟨n.name, n.tags.map f, n.behaviours⟩ =
+      matchesTags Gen.Fleet.asyncFilter req n := by
+  rw [source_forms.2.1, source_forms.2.2.1]
+  have key : ((req.map f).all fun t => (n.tags.map f).contains t) = (req.all fun t => n.tags.contains t) := by
+    rw [Bool.eq_iff_iff]
+    simp only [List.all_eq_true, List.contains_iff_mem, List.mem_map]
+    constructor
+    · intro h t ht
+      obtain ⟨a, ha, hfa⟩ := h (f t) ⟨t, ht, rfl⟩
+      exact hf hfa ▸ ha
+    · rintro h _ ⟨t, ht, rfl⟩
+      exact ⟨t, h t ht, rfl⟩
+  exact ⟨key, key⟩
+
+/-- The request is a set: the order in which the caller lists the tags and repeats among them do not
+matter. -/
+theorem request_order_and_repeats_irrelevant (req req' : List String) (n : Node)
+    (h : ∀ t, t ∈ req ↔ t ∈ req') :
+    matchesTags Gen.Fleet.filter req n = matchesTags Gen.Fleet.filter req' n ∧
+    matchesTags Gen.Fleet.asyncFilter req n = matchesTags Gen.Fleet.asyncFilter req' n := by
+  rw [source_forms.2.1, source_forms.2.2.1]
+  have key : (req.all fun t => n.tags.contains t) = (req'.all fun t => n.tags.contains t) := by
+    rw [Bool.eq_iff_iff]
+    simp only [List.all_eq_true]
+    constructor
+    · intro hh t ht; exact hh t ((h t).2 ht)
+    · intro hh t ht; exact hh t ((h t).1 ht)
+  exact ⟨key, key⟩
+
+example : matchesTags Gen.Fleet.filter ["b", "a", "b"] ⟨"n", ["a", "b"], []⟩ = true := by decide
+
 example : (targets Gen.Fleet.filter ["a"] [⟨"n1", ["a", "b"], []⟩, ⟨"n2", ["b"], []⟩]).map (·.name) = ["n1"] := by
   decide
 
